@@ -113,6 +113,11 @@ type Node struct {
 	// Interrupted: the main loop handled an event (cancelling contexts) during the worker step that is being judged right now
 	Interrupted  bool
 	pendingDelay int
+	// what the main loop has told the node to leave (its contexts are cancelled) while the worker half is still to come:
+	// positions up to and including (LeaveH, LeaveV) for an election, every position of heights <= LeaveH for a sync
+	Leaving        bool
+	LeaveSync      bool
+	LeaveH, LeaveV uint64
 }
 
 func (n *Node) H() uint64 { return uint64(n.VN.State().Height()) }
@@ -370,6 +375,7 @@ func (w *World) interrupt(n *Node, kind string) {
 			if n.VN.MainElection(trig) {
 				n.pendingTrig = trig
 				n.pendingDelay = it.Delay
+				n.Leaving, n.LeaveSync, n.LeaveH, n.LeaveV = true, false, uint64(trig.Hv.Height()), uint64(trig.Hv.View())
 				n.Interrupted = true
 				w.Obs.Interrupts++
 			}
@@ -393,6 +399,7 @@ func (w *World) interrupt(n *Node, kind string) {
 			if n.VN.MainUpdateState(best.Block, best.Proof) {
 				n.pendingSync = best
 				n.pendingDelay = it.Delay
+				n.Leaving, n.LeaveSync, n.LeaveH = true, true, best.H
 				n.Interrupted = true
 				w.Obs.Interrupts++
 			}
@@ -406,6 +413,7 @@ func (w *World) runPending(n *Node) {
 		n.pendingDelay--
 		return
 	}
+	n.Leaving = false
 	if trig := n.pendingTrig; trig != nil {
 		n.pendingTrig = nil
 		n.Inbox = append(n.Inbox, InEvent{Kind: "timeout"})
@@ -674,6 +682,7 @@ func (w *World) timeoutD(i, d int) {
 		n.VN.Gc()
 		if n.VN.MainElection(trig) {
 			n.pendingTrig, n.pendingDelay = trig, d
+			n.Leaving, n.LeaveSync, n.LeaveH, n.LeaveV = true, false, uint64(trig.Hv.Height()), uint64(trig.Hv.View())
 			w.Obs.SplitEvents++
 		}
 	})
@@ -702,6 +711,7 @@ func (w *World) syncD(i, src int, h uint64, d int) {
 		n.VN.Gc()
 		if n.VN.MainUpdateState(c.Block, c.Proof) {
 			n.pendingSync, n.pendingDelay = c, d
+			n.Leaving, n.LeaveSync, n.LeaveH = true, true, c.H
 			w.Obs.SplitEvents++
 		}
 	})
